@@ -224,12 +224,18 @@ size_t carquet_bitunpack_32(const uint8_t* input, size_t count,
 
     /* Handle remaining values */
     if (i < count) {
+        /* The tail holds only packed_size(count - i) bytes: unpack from a zero-padded
+         * copy instead of reading a whole group past the end of the input. */
         uint32_t temp[8];
-        carquet_bitunpack8_32(input + bytes_consumed, bit_width, temp);
+        uint8_t padded[32] = {0};
+        size_t tail_bytes = carquet_packed_size(count - i, bit_width);
+        if (tail_bytes > sizeof(padded)) tail_bytes = sizeof(padded);
+        memcpy(padded, input + bytes_consumed, tail_bytes);
+        carquet_bitunpack8_32(padded, bit_width, temp);
         for (size_t j = 0; j < count - i; j++) {
             values[i + j] = temp[j];
         }
-        bytes_consumed += carquet_packed_size(count - i, bit_width);
+        bytes_consumed += tail_bytes;
     }
 
     return bytes_consumed;
